@@ -1078,6 +1078,7 @@ fillmode_case(long idx, void *ctx)
     mc_outcome(mc_hash_i(mc_hash_i(MC_H0, -8), idx));
 }
 #define NFILLMODE (3L * 8 * 5 * 2 * 2)
+static void biglinked_case(long idx, void *ctx); /* below: one write call spanning several linked-block tables */
 
 int
 C03_main(const char *tier, const char *replay)
@@ -1092,6 +1093,10 @@ C03_main(const char *tier, const char *replay)
             return 2;
         if (cfg[0] == -7) {
             bigfirst_case(cfg[1] * 2L + cfg[2], NULL);
+            return 0;
+        }
+        if (cfg[0] == -5) {
+            biglinked_case(cfg[1], NULL);
             return 0;
         }
         if (cfg[0] == -8 && ncfg >= 6) {
@@ -1118,7 +1123,10 @@ C03_main(const char *tier, const char *replay)
     mc_round_begin("fill-mode switches in a session on an existing file, then a partly written new data set");
     mc_foreach(NFILLMODE, fillmode_case, NULL, 1, 120);
     mc_round_end();
-    mc_count("evaluations", mc_get("histories") + mc_get("bigfirst_cases") + mc_get("fillmode_cases"));
+    mc_round_begin("unlimited data sets: single writes that cross linked-block table boundaries, then reopen");
+    mc_foreach(12, biglinked_case, NULL, 1, 300);
+    mc_round_end();
+    mc_count("evaluations", mc_get("histories") + mc_get("bigfirst_cases") + mc_get("fillmode_cases") + 12);
     mc_rule("SD datasets of rank 1-4 (dims 1..4, 1..3^2, up to 3x2x3 and 2^4), fixed and with an unlimited first dimension (with SDsetblocksize variants and a "
             "second record variable of a different length in the same file), element sizes 1/2/4/8 with the full geometry and all 10 number types x 3 flavours "
             "on reduced geometry, fill mode FILL (default and user value) and NOFILL. Per configuration: every hyperslab made of one arithmetic progression per "
